@@ -246,3 +246,40 @@ Proof.
   destruct (spec_plus_model (q_unwrap_obj repaired) S F D n n Hnd Hin) as [u [Hr He]].
   apply (silent_acyclic pi S F _ Hpi H n); [rewrite frag_names_pti; exact Hn | exists u; auto].
 Qed.
+
+(** ** the same, in the shape C01 uses ([acyclic_frags]): no defined fragment occurs in a chain of
+    spreads that starts in its own body.  [sp_ss ss]: the names of all fragment spreads occurring in
+    [ss] at any depth; fragments are looked up as the Spec does ([fragment], the first definition of
+    the name).  Stated on the document as written (no annotation), so that it can be transported
+    along a structural translation of documents. *)
+Inductive spread_chain (D : document) : selset -> list name -> Prop :=
+| spread_chain_nil ss : spread_chain D ss []
+| spread_chain_cons ss n d l :
+    In n (sp_ss ss) -> fragment D n = Some d -> spread_chain D (def_sub d) l -> spread_chain D ss (n :: l).
+
+Definition acyclic_spreads (D : document) : Prop :=
+  forall n d l, fragment D n = Some d -> spread_chain D (def_sub d) l -> ~ In n l.
+
+Lemma spread_chain_plus D : forall ss l, spread_chain D ss l ->
+  forall n d, fragment D n = Some d -> ss = def_sub d -> forall x, In x l -> plus (spreads_of D) n x.
+Proof.
+  intros ss l H. induction H as [ss | ss m dm l Hm Hdm _ IH]; intros n d Hd -> x Hx; [destruct Hx |].
+  assert (step (spreads_of D) n m) as Hs.
+  { unfold step, spreads_of. rewrite Hd. fold spread_of_sel. rewrite (proj2 spreads_sp). exact Hm. }
+  destruct Hx as [<- | Hx]; [apply plus_one; exact Hs |]. apply (plus_left _ n m x Hs). apply (IH m dm Hdm eq_refl x Hx).
+Qed.
+
+Theorem no_cycle_acyclic_spreads D : valid_5_5_2_2 D = true -> acyclic_spreads D.
+Proof.
+  intros H n d l Hd Hc Hin. pose proof (spread_chain_plus D _ l Hc n d Hd eq_refl n Hin) as Hp.
+  apply spec_reachable_from in Hp. unfold valid_5_5_2_2 in H. rewrite forallb_forall in H.
+  assert (In n (frag_names D)) as Hn.
+  { unfold fragment in Hd. destruct (in_dec (fun a b => match list_eq_dec N.eq_dec a b with left e => left e | right e => right e end) n (frag_names D)) as [Hi | Hi]; [exact Hi |].
+    apply frag_first_none in Hi. congruence. }
+  specialize (H n Hn). apply negb_true_iff, mem_false in H. contradiction.
+Qed.
+
+Theorem spreads_silent_acyclic_spreads pi S F D :
+  order_ok pi -> valid_5_5_1_1 D = true ->
+  rule_fragment_spreads repaired pi S F (pti_doc (q_unwrap_obj repaired) S F D) = Done [] -> acyclic_spreads D.
+Proof. intros Hpi Hnd H. apply no_cycle_acyclic_spreads. apply (spreads_silent_5_5_2_2 pi S F D Hpi Hnd H). Qed.
